@@ -44,5 +44,5 @@ fn s_c03(t: &mut Tape, ctx: &mut Ctx) -> Result<(), Failure> {
 }
 
 pub fn c03() -> Vec<Stream> {
-    vec![Stream { name: "nearmiss", kind: Kind::Tape { cases: |t: Tier| t.pick(12_000, 500_000), max_len: 320, f: s_c03 }, isolate: false }]
+    vec![Stream { name: "nearmiss", kind: Kind::Tape { cases: |t: Tier| t.pick(60_000, 1_500_000), max_len: 320, f: s_c03 }, isolate: false }]
 }
